@@ -1,9 +1,15 @@
 //! mc-proofs: serves C11 (see /verif/DESIGN.md §4)
 mod c11;
+mod c11_alter;
+mod c11_sets;
+mod c11_stake;
+mod c11_world;
 
 fn main() {
     let ctx = mc_core::Ctx::from_args();
-    mc_core::quiet_panics();
+    if std::env::var("MC_LOUD_PANICS").is_err() {
+        mc_core::quiet_panics();
+    }
     match ctx.property.as_str() {
         "C11" => c11::run(&ctx),
         other => {
